@@ -283,6 +283,32 @@ def name_class_cases(sylt, fnd):
                 fnd.report("renaming-changes-behaviour:local-named-like-%s" % {"other": "namespace", "alias": "namespace-alias", "glob": "global-function"}[nm],
                            "%s: with the local named %r the program prints %s, with a fresh name %s" % (bname, nm, o[1:], base[1:]), dict(files, **{"main.sy": head + "start :: fn do\n" + body.replace("NAME", nm) + "end\n", "renamed.sy": head + "start :: fn do\n" + body.replace("NAME", "fresh_q") + "end\n"}),
                            cmd="sylt -o a.lua main.sy; sylt -o b.lua renamed.sy   # both accepted; run both")
+    # locals declared inside the initialiser of a GLOBAL (in a branch / arm / block of an if-, case- or block-expression outside every function):
+    # they are locals of that branch, whatever they are called - also when a global of the same name exists
+    ghead = "n :: 5\nflag :: true\nEn :: enum\n    A int,\n    B,\nend\nglob :: fn -> int do ret 5 end\n"
+    gbodies = {"if_branch": "limit :: if flag do\n    NAME := 10\n    NAME * 2\nelse\n    0\nend\n",
+               "else_branch": "limit :: if not flag do\n    0\nelse\n    NAME :: 7\n    NAME + 1\nend\n",
+               "case_arm": "limit :: case En.A 4 do\n    A v ->\n        NAME := v\n        NAME + 1\n    end\n    else 0 end\nend\n",
+               "nested_if_in_list": "limit :: [if flag do\n    NAME := 3\n    NAME\nelse\n    0\nend, 1]\n",
+               "mutable_global": "limit := if flag do\n    NAME := 10\n    NAME = NAME + 1\n    NAME\nelse\n    0\nend\n"}
+    for bname, gb in gbodies.items():
+        outs = {}
+        for nm in ("fresh_q", "n", "glob", "limit2"):
+            text = ghead + gb.replace("NAME", nm) + "limit2 :: 1\nstart :: fn do\n    print(limit)\n    print(n)\n    print(glob())\n    print(limit2)\nend\n"
+            rc, lua, out = common.compile_sy(sylt, {"main.sy": text}); n += 1
+            if rc != 0 or lua is None: outs[nm] = ("rejected", out[-200:].replace("\n", " "), text); continue
+            events, outcome, it = runner.run_concrete(parse(lua))
+            outs[nm] = ("prints", [e[1] for e in events if e[0] == "print"], outcome[0], text)
+        base = outs["fresh_q"]
+        if base[0] != "prints":
+            fnd.report("unresolved-visible-local:local-in-a-global-initialiser(%s)" % bname, "%s: a local declared in a branch of a global's initialiser and used by the next statement of that branch does not resolve: %s" % (bname, base[1]),
+                       {"main.sy": base[-1]}, cmd="sylt -o a.lua main.sy   # must be accepted")
+            continue
+        for nm, o in outs.items():
+            if o[:-1] != base[:-1]:
+                fnd.report("renaming-changes-behaviour:local-in-a-global-initialiser(%s)-named-like-%s" % (bname, {"n": "a-constant-global", "glob": "a-global-function", "limit2": "a-later-global"}.get(nm, nm)),
+                           "%s: with the branch-local named %r the program %s, with a fresh name it %s" % (bname, nm, o[:-1], base[:-1]), {"main.sy": o[-1], "renamed.sy": base[-1]},
+                           cmd="sylt -o a.lua main.sy; sylt -o b.lua renamed.sy   # run both")
     # the scope of a local starts after its initialiser (except for a lambda, which may call itself), whatever its annotation
     head2 = "twice :: fn g: fn int -> int -> fn int -> int do\n    ret fn n: int -> int do ret g(g(n)) end\nend\nidt :: fn v: (int, int) -> (int, int) do ret v end\nsucc :: fn v: int -> int do ret v + 1 end\n"
     shadow = {"fn_annotated": ("    f := fn n: int -> int do ret n + 1 end\n    do\n        NAME: fn int -> int = twice(f)\n        print(NAME(1))\n    end\n    print(f(1))\n", "f"),
